@@ -56,6 +56,17 @@ func DepartureScript(variant int) []Action {
 	add("comp_add", 2, &model.Req{TypeID: 2, Entity: 3, Data: []byte("u-e3")})
 	add("pose", 1, &model.Req{Entity: 1, Pose: pose(11)})
 	add("custom", 1, &model.Req{Data: []byte("flag-script-custom")})
+	if variant&4 != 0 {
+		// redundant bookkeeping requests before the departure: an unsubscribe of a
+		// type it is subscribed to, the same once more, one of a type it never
+		// subscribed to and one of a type that does not exist - it remains the
+		// sole subscriber of type 1
+		add("unsub", 2, &model.Req{TypeID: 2})
+		add("unsub", 2, &model.Req{TypeID: 2})
+		add("sub", 2, &model.Req{TypeID: 1})
+		add("unsub", 2, &model.Req{TypeID: 77})
+		add("get_name", 2, &model.Req{TypeID: 1})
+	}
 	// the sole subscriber of type 1 leaves
 	if variant%2 == 0 {
 		add("close", 2, &model.Req{How: []string{"fin", "rst"}[(variant/2)%2]})
@@ -121,4 +132,90 @@ func FlagDiffScript(ws *sut.Workspace, bin string, opts sut.LabOpts, cfg Config,
 	res.Stats.Merge(r2.Stats)
 	compareFlagRuns(res, r1, r2, flags)
 	return res
+}
+
+// RunScript executes a script on a fresh lab SUT, judged by the reference model.
+func RunScript(ws *sut.Workspace, bin string, opts sut.LabOpts, cfg Config, script []Action) (*Runner, error) {
+	r, p, err := startRun(ws, bin, opts, cfg, script)
+	if err != nil {
+		return nil, err
+	}
+	p.Kill()
+	return r, nil
+}
+
+// IDScript is a directed history about server-issued ids across session
+// switches: participants that own nothing (or something) switch from a session
+// with k asset instances to a fresh one and allocate there next to
+// connections that joined it directly; entities are deleted and added again;
+// type names are registered in both sessions. Every id the server issues is
+// judged by the model (unique per session and id space, never reissued).
+func IDScript(variant int) []Action {
+	var out []Action
+	add := func(kind string, conn int, rq *model.Req) {
+		if rq != nil {
+			rq.Kind = kind
+			rq.Tag = d.NewTag()
+		}
+		out = append(out, Action{Kind: kind, Conn: conn, Req: rq, Step: len(out)})
+	}
+	join := func(conn int, ref *[2]int) {
+		rq := &model.Req{Kind: "join", Tag: d.NewTag()}
+		a := Action{Kind: "join", Conn: conn, Req: rq, Step: len(out)}
+		if ref != nil {
+			r := *ref
+			a.JoinRef = &r
+			rq.SID = "?"
+		}
+		out = append(out, a)
+	}
+	pose := func(x float32) *model.Pose { return &model.Pose{x, 0, 0, 0, 0, 0, 1} }
+	A, B := [2]int{0, 0}, [2]int{0, 1}
+	k := variant % 3 // asset instances session A holds when its members switch
+	for c := 1; c <= 3; c++ {
+		add("open", c, nil)
+	}
+	join(1, nil)
+	join(2, &A)
+	join(3, &A)
+	add("type_add", 1, &model.Req{Name: "id-T"})
+	for i := 0; i < k; i++ {
+		add("entity_add", 1, &model.Req{Persist: true, Pose: pose(float32(i))}) // entities 1..k of A
+		add("asset_add", 1, &model.Req{Entity: uint32(i + 1), Name: fmt.Sprintf("a-%d", i)})
+	}
+	if variant&4 != 0 {
+		// the switching member owns an entity (with an asset) in A
+		add("entity_add", 2, &model.Req{Persist: false, Pose: pose(9)})
+		add("asset_add", 2, &model.Req{Entity: uint32(k + 1), Name: "c2-in-A"})
+	}
+	join(2, nil) // creates B, owning nothing there
+	join(3, &B)  // follows, owning nothing
+	add("open", 4, nil)
+	join(4, &B) // joined B directly
+	add("type_add", 4, &model.Req{Name: "id-U"})
+	add("type_add", 2, &model.Req{Name: "id-T"})
+	// allocations in B by the switched and the direct members, interleaved
+	ent := uint32(0)
+	for round := 0; round < k+2; round++ {
+		for _, c := range []int{2, 4, 3} {
+			ent++
+			add("entity_add", c, &model.Req{Persist: round%2 == 0, Pose: pose(float32(ent))})
+			add("asset_add", c, &model.Req{Entity: ent, Name: fmt.Sprintf("b-%d", ent)})
+		}
+	}
+	// release and allocate again
+	add("entity_del", 2, &model.Req{Entity: 1})
+	add("entity_add", 2, &model.Req{Persist: false, Pose: pose(50)})
+	add("entity_add", 4, &model.Req{Persist: false, Pose: pose(51)})
+	// back to A (still alive through connection 1), and allocate there
+	join(3, &A)
+	add("entity_add", 3, &model.Req{Persist: false, Pose: pose(60)})
+	add("asset_add", 3, &model.Req{Entity: uint32(k + 1), Name: "c3-back-in-A"})
+	add("entity_add", 1, &model.Req{Persist: false, Pose: pose(61)})
+	add("asset_add", 1, &model.Req{Entity: uint32(k + 2), Name: "c1-more"})
+	add("close", 2, &model.Req{How: "fin"})
+	add("close", 4, &model.Req{How: "fin"})
+	add("close", 3, &model.Req{How: "fin"})
+	add("close", 1, &model.Req{How: "fin"})
+	return out
 }
